@@ -1064,9 +1064,10 @@ def build_wildcard_re(lookup_value):
             regex.append(re.escape(char))
 
     if is_pattern:
-        compiled = re.compile(f'^{"".join(regex)}$', re.IGNORECASE | re.DOTALL)
-        # only text can match a pattern
-        return lambda x: isinstance(x, str) and compiled.match(x) is not None
+        compiled = re.compile("".join(regex), re.IGNORECASE | re.DOTALL)
+        # only text can match a pattern ('$' would also match before a
+        # trailing newline)
+        return lambda x: isinstance(x, str) and compiled.fullmatch(x) is not None
     else:
         return None
 
